@@ -1234,10 +1234,7 @@ func Run(cfg hx.Config) error {
 	}
 	defer uuid.SetRand(nil)
 	r.Rule = "recording histories of 0..60 calls on a real jsonblob.Store (vulnerability, delta and enrichment updates of 0..60 records, repeated updaters/fingerprints, scripted uuid collisions, intermediate flushes, concurrent recorders), each ended by Store and Load; plus hand-made files through the loader. One protocol line per call; every line except reset/latest/init counts as non-trivial, distinct by text. Oracle: multiset of (updater, fingerprint, kind, records in order) recorded = loaded."
-	// hx.NewRand(seed+1) is hx.NewRand(seed) advanced by one draw (the state is
-	// seed*gamma and each draw adds gamma), so neighbouring seeds would give
-	// almost the same run; seed the generator with a mixed value instead.
-	rnd := hx.NewRand(hx.NewRand(cfg.Seed).U64())
+	rnd := hx.NewRand(cfg.Seed)
 	p := newPool(rnd, cfg.N(300, 1200), r)
 
 	// witnesses and corpus first
